@@ -73,6 +73,21 @@ PROPS = {
         'assumptions': ["page size 4096; 64-bit address space", "hypotheses of C06_region_in_mapping: the page of the stack pointer lies inside the kernel extent of a readable/writable mapping"],
         'partial': 'the pure stage drives get_stack_info; the size-limit rule (positions >= 20, never the crash thread, 2 KiB) and byte equality with target memory are exercised by the live stage',
     },
+    'C14': {
+        'abi_module': 'AbiC14',
+        'stages': quick_thorough(
+            [{'name': 'sweep', 'sub': 'c14mut', 'n': 0, 'args': ['sweep'], 'compat': lambda c, a, b: a.strip() == '3' and b.strip() != '2', 'no_escalate': True},
+             {'name': 'mutated', 'sub': 'c14mut', 'n': 800, 'compat': lambda c, a, b: a.strip() == '3' and b.strip() != '2'},
+             {'name': 'files', 'sub': 'c14files', 'n': 120, 'no_escalate': True}],
+            [{'name': 'sweep', 'sub': 'c14mut', 'n': 0, 'args': ['sweep'], 'compat': lambda c, a, b: a.strip() == '3' and b.strip() != '2', 'no_escalate': True},
+             {'name': 'mutated', 'sub': 'c14mut', 'n': 60000, 'compat': lambda c, a, b: a.strip() == '3' and b.strip() != '2'},
+             {'name': 'files', 'sub': 'c14files', 'n': 100000, 'no_escalate': True, 'timeout': 3000}]),
+        'assumptions': [
+            "goblin 0.9 header/program-header/section-header/note primitives are mirrored by the model, not verified",
+            "the expected identifiers of installed files come from the harness's independent section-based reader",
+        ],
+        'partial': 'proved: totality of build-id extraction (model of the repaired reader). Differential only: equality with the GNU note / text hash on well-formed files (independent reader), SONAME extraction (not modelled; totality is tested on every generated image), memory-vs-file agreement (live stage)',
+    },
     'C13': {
         'abi_module': 'AbiC13',
         'stages': quick_thorough(
